@@ -21,6 +21,7 @@ pub mod flow;
 pub mod sched;
 pub mod wire;
 pub mod c16;
+pub mod c17;
 pub mod c18;
 pub mod c19;
 pub mod c20;
@@ -52,6 +53,7 @@ pub fn all() -> Vec<Prop> {
         Prop { id: "C14", level: "fault_enumeration", case: c14::case, run: c14::run, replay_reps: 3 },
         Prop { id: "C15", level: "exploration", case: c15::case, run: c15::run, replay_reps: 1 },
         Prop { id: "C16", level: "exploration", case: c16::case, run: c16::run, replay_reps: 1 },
+        Prop { id: "C17", level: "exploration", case: c17::case, run: c17::run, replay_reps: 2 },
         Prop { id: "C18", level: "fault_enumeration", case: c18::case, run: c18::run, replay_reps: 3 },
         Prop { id: "C19", level: "exploration", case: c19::case, run: c19::run, replay_reps: 1 },
         Prop { id: "C20", level: "exploration", case: c20::case, run: c20::run, replay_reps: 1 },
